@@ -387,3 +387,31 @@ Proof.
   exists 100%positive, [100; 0; 50; 1000; 10; 0; 3; 0; 7; 0]%Z, [105; 0; 50; 1015; 10; 0; 3; 0; 7; 0]%Z.
   repeat split; try (cbn; lia); vm_compute; reflexivity.
 Qed.
+
+(* restatements with the demanded values written out (used by Properties/C07.v) *)
+Lemma times_percent_formula_inl clk s1 s2 :
+  length s1 = length s2 -> (7 <= length s1 <= 10)%nat ->
+  (Zpos clk <= spec_total (dticks s1 s2))%Z ->
+  Forall2 Qeq (calc_times_percent (map (secs clk) s1) (map (secs clk) s2))
+              (map (fun x => Qmin (inject_Z (100 * x) / inject_Z (spec_total (dticks s1 s2))) 100) (dticks s1 s2)).
+Proof.
+  intros Hl Hn HT. pose proof (times_percent_formula clk s1 s2 Hl Hn HT) as H.
+  unfold spec_shares, spec_share in H.
+  destruct (spec_total (dticks s1 s2) =? 0)%Z eqn:E; [apply Z.eqb_eq in E; lia|exact H].
+Qed.
+
+Lemma demanded_shares s1 s2 :
+  length s1 = length s2 -> (7 <= length s1 <= 10)%nat ->
+  Forall (fun x => 0 <= x <= 100) (spec_shares s1 s2)
+  /\ ((0 < spec_total (dticks s1 s2))%Z -> qsum (firstn 8 (spec_shares s1 s2)) == 100).
+Proof. intros Hl Hn. split; [apply spec_shares_bounds|now apply spec_shares_sum]. Qed.
+
+Lemma times_percent_zero_inl clk s1 s2 :
+  Forall (fun x => x = 0%Z) (dticks s1 s2) ->
+  Forall2 Qeq (calc_times_percent (map (secs clk) s1) (map (secs clk) s2)) (map (fun _ => 0) (dticks s1 s2)).
+Proof.
+  intros H. pose proof (times_percent_zero clk s1 s2 H) as G.
+  unfold spec_shares in G.
+  replace (spec_total (dticks s1 s2)) with 0%Z in G; [exact G|].
+  unfold spec_total, spec_busy. now rewrite !tk_zero.
+Qed.
